@@ -36,6 +36,7 @@ type Acc struct {
 	Notes      []string                   `json:"notes"`
 	Incomplete []string                   `json:"incomplete"` // reasons exhaustive=false
 	mu         sync.Mutex
+	seen       map[string]bool
 }
 
 func NewAcc() *Acc {
@@ -67,12 +68,17 @@ func (a *Acc) Sample(v any, max int) {
 }
 func (a *Acc) Violate(v Violation) {
 	a.mu.Lock()
-	for _, o := range a.Violations {
-		if o.Key == v.Key {
-			a.mu.Unlock()
-			return
+	if a.seen == nil {
+		a.seen = map[string]bool{}
+		for _, o := range a.Violations {
+			a.seen[o.Key] = true
 		}
 	}
+	if a.seen[v.Key] {
+		a.mu.Unlock()
+		return
+	}
+	a.seen[v.Key] = true
 	if len(a.Violations) < 50000 {
 		a.Violations = append(a.Violations, v)
 	}
@@ -114,14 +120,15 @@ func (a *Acc) Merge(b *Acc) {
 			a.Samples = append(a.Samples, s)
 		}
 	}
-	for _, v := range b.Violations {
-		dup := false
+	if a.seen == nil {
+		a.seen = map[string]bool{}
 		for _, o := range a.Violations {
-			if o.Key == v.Key {
-				dup = true
-			}
+			a.seen[o.Key] = true
 		}
-		if !dup {
+	}
+	for _, v := range b.Violations {
+		if !a.seen[v.Key] {
+			a.seen[v.Key] = true
 			a.Violations = append(a.Violations, v)
 		}
 	}
